@@ -355,14 +355,37 @@ def _child(jobfile):
                        "autocommit": getattr(conn, "autocommit", -1),
                        "in_transaction_after_init": bool(conn.in_transaction)}
         out["schema"] = schema(conn)
+        interposed = out["conn"]["interposed"] = []
+        if "factory" in connects[0]["kw"]:
+            interposed.append("sqlite3.connect(factory=...) asks for a Connection subclass")
+        extra = sorted(k for k in vars(conn) if k not in ("_log", "_mute", "_pending", "_pending_logged"))
+        if extra:
+            interposed.append("attribute(s) set on the connection object: %s (monkey-patched)" % ", ".join(extra))
         attrs, classes = {}, {}
         for a, v in sorted(vars(store).items()):
+            if in_pkg(type(v)) and any(n in vars(type(v)) for n in ("commit", "execute", "cursor", "rollback")):
+                continue            # a connection wrapper kept on the facade, not a table store (reported below)
             if in_pkg(type(v)):
                 attrs[a] = type(v).__name__
                 classes[type(v).__name__] = type(v)
                 held = [k for k, x in vars(v).items() if x is conn]
                 if len(held) != 1:
-                    raise MeasureError("sub-store %s does not keep the facade's connection in exactly one attribute" % a)
+                    # something stands between the store and the connection: say what
+                    found = False
+                    for k, x in vars(v).items():
+                        inner = [kk for kk, xx in getattr(x, "__dict__", {}).items() if xx is conn]
+                        if inner or (isinstance(x, sqlite3.Connection) and x is not conn):
+                            found = True
+                            own = sorted(n for n in ("commit", "rollback", "execute", "cursor", "executemany", "executescript",
+                                                     "__enter__", "__exit__", "__getattr__") if n in vars(type(x)))
+                            d = "%s.%s is a %s %s (defines %s)" % (
+                                type(v).__name__, k, type(x).__name__,
+                                "wrapping the connection in its attribute %s" % inner[0] if inner else "that is another connection",
+                                ", ".join(own) or "nothing of the connection interface")
+                            if d not in interposed:
+                                interposed.append(d)
+                    if not found:
+                        raise MeasureError("sub-store %s does not keep the facade's connection in exactly one attribute" % a)
         out["facade"] = {"attrs": attrs, "class": type(store).__name__, "methods": {}}
         # recorders on the sub-store instances
         calls = []
